@@ -217,13 +217,23 @@ Proof.
     destruct (exec_acts E acts s) as [s1 r1]. cbn in Hk. injection H as <- _. intros _. exact Hk.
 Qed.
 
+(* the link state is not part of J, and HEAD reads it only to refuse a take_off on the ground *)
+Lemma exec_op2_J E defh o s s' r : J s -> exec_op2 E defh o s = (s', r) -> J s'.
+Proof.
+  intros HJ H. destruct o; cbn [exec_op2] in H; try (eapply exec_op_J; eauto; fail).
+  - destruct (negb (flying s) && negb (conn s)).
+    + injection H as <- _. exact HJ.
+    + eapply exec_op_J; eauto.
+  - injection H as <- _. exact HJ.
+Qed.
+
 Lemma exec_body_J E defh ops : forall s s' r, J s -> exec_body E defh ops s = (s', r) -> J s'.
 Proof.
   induction ops as [|o ops IH]; intros s s' r HJ H; cbn in H.
   - injection H as <- _. exact HJ.
-  - destruct (exec_op E defh o s) as [s1 [e|]] eqn:Ho.
-    + injection H as <- _. eapply exec_op_J; eauto.
-    + eapply IH; [|exact H]. eapply exec_op_J; eauto.
+  - destruct (exec_op2 E defh o s) as [s1 [e|]] eqn:Ho.
+    + injection H as <- _. eapply exec_op2_J; eauto.
+    + eapply IH; [|exact H]. eapply exec_op2_J; eauto.
 Qed.
 
 Theorem mc_exit_ends_with_stop E t0 defh ops sch x s :
@@ -264,6 +274,18 @@ Example mc_example :
   exists s, run_mc E0 5 (3 # 10) [OUp (1 # 5) None; ODown (1 # 2) None; OForward 0 None] [false; true; false] = Exited (Some ZeroDiv) s
             /\ (length (log s) > 20)%nat.
 Proof. eexists. split; [vm_compute; reflexivity|]. vm_compute. repeat constructor. Qed.
+
+(* wave 11: the link is lost inside the body (and an exception follows): the context still ends with stop; notify *)
+Example mc_link_lost_example :
+  exists s t rest, run_mc E0 5 (3 # 10) [OForward (1 # 5) None; OLink false; OTakeOff None None; ORaise] [true; false] = Exited (Some AlreadyFlying) s
+                   /\ conn s = false /\ thr s = None /\ log s = ENotify t :: EStop t :: rest.
+Proof. do 3 eexists. vm_compute. repeat split; reflexivity. Qed.
+
+(* an __exit__ guarded by is_connected() leaves the context flying, thread alive *)
+Lemma guarded_exit_refuted :
+  exists s, run_mc_guarded E0 5 (3 # 10) [OLink false] [] = Exited None s /\ flying s = true /\ thr s <> None
+            /\ (exists t vx vy yaw z vz rest, log s = EHover t vx vy yaw z vz :: rest).
+Proof. eexists. vm_compute. split; [reflexivity|]. split; [reflexivity|]. split; [discriminate|]. do 7 eexists. reflexivity. Qed.
 
 (* ================================================================== PositionHlCommander *)
 Definition h_is_land (o : hop) : bool := match o with HOLand _ _ => true | _ => false end.
@@ -337,14 +359,23 @@ Proof.
       intros Hc. assert (Hx : hfly s' = true) by (eapply h_takeoff_ground; [exact Hf|exact H]). congruence.
 Qed.
 
+Lemma hexec_op2_JH sq o s s' r : JH s -> hexec_op2 sq o s = (s', r) -> JH s'.
+Proof.
+  intros HJ H. destruct o; cbn [hexec_op2] in H; try (eapply hexec_op_JH; eauto; fail).
+  - destruct (negb (hfly s) && negb (hconn s)).
+    + injection H as <- _. exact HJ.
+    + eapply hexec_op_JH; eauto.
+  - injection H as <- _. exact HJ.
+Qed.
+
 Lemma hexec_body_JH sq ops : forall s pos s' r pos',
   JH s -> hexec_body sq ops s pos = (s', r, pos') -> JH s'.
 Proof.
   induction ops as [|o ops IH]; intros s pos s' r pos' HJ H; cbn in H.
   - injection H as <- _ _. exact HJ.
-  - destruct (hexec_op sq o s) as [s1 [e|]] eqn:Hop.
-    + injection H as <- _ _. eapply hexec_op_JH; eauto.
-    + eapply IH; [|exact H]. eapply hexec_op_JH; eauto.
+  - destruct (hexec_op2 sq o s) as [s1 [e|]] eqn:Hop.
+    + injection H as <- _ _. eapply hexec_op2_JH; eauto.
+    + eapply IH; [|exact H]. eapply hexec_op2_JH; eauto.
 Qed.
 
 Lemma h_takeoff_ok_flying h v s s' : h_takeoff h v s = (s', None) -> hfly s' = true.
